@@ -51,7 +51,7 @@ def required_cells(tier):
             "class:enum", "class:random", "names:substring-related", "meta:rename-case-variants",
             "class:clustering", "clustering:platforms>=4", "clustering:>=4-distinct-distances", "clustering:average-marker",
             "summary-report", "summary-report:nan", "name:empty-string", "name:glob-metacharacters",
-            "filetree:platform-added-between-printouts"]
+            "filetree:platform-added-between-printouts", "mapping-updated-in-place-between-calls", "clustering:undefined-distance"]
 
 
 # ---------------------------------------------------------------- oracle --
@@ -458,6 +458,109 @@ def check_filetree(rng, report, workdir):
     return problems[:4], {"filetree:platform-added-between-printouts"}, {n: {",".join(sorted(k)): v for k, v in t.items()} for n, t in tables.items()}
 
 
+UPDATE_SEQUENCES = [
+    [(("cpu", "gpu"), 10), ((), 2), (("cpu",), 5), (("gpu",), 3), (("cpu", "gpu"), -10), (("cpu",), -5)],
+    [(("a",), 3), (("b",), 3), (("a", "b"), 6), (("c",), 1), (("a", "c"), 2), (("b",), -3), (("c",), -1), (("a", "c"), -2)],
+    [((), 4), (("x", "y", "z"), 1), (("x",), 2), (("y",), 2), (("z",), 2), (("x", "y", "z"), 7), (("x",), -2)],
+]
+
+
+def stateful_updates(report, watch):
+    """One mapping object (a defaultdict, as finder.get_setmap builds it) updated IN PLACE between calls: every call of
+    every metric must describe the mapping as it is now, not as it was when the function last saw this object.
+    Returns list of (problems, cells, rows-after-the-step)."""
+    import collections
+    import io
+    from cbimon import cli
+    out = []
+    for seq in UPDATE_SEQUENCES:
+        live = collections.defaultdict(int)
+        for step, (key, delta) in enumerate(seq):
+            k = frozenset(key)
+            live[k] += delta
+            if live[k] == 0 and delta < 0:
+                del live[k]
+            table = dict(live)          # value copy for the reference
+            rows = sorted((tuple(sorted(kk)), v) for kk, v in table.items())
+            problems = []
+            ps = sorted(ref_platforms(table))
+
+            def expect(metric, args, res, exp):
+                st, val = res
+                if st == "exc" or not close(val, exp):
+                    problems.append({"metric": metric + " (same mapping object, updated in place)", "args": args, "step": step,
+                                     "expected": "NaN" if exp is None else str(exp), "observed": val if st == "exc" else repr(val)})
+            for rep in range(2):
+                dv, amb = ref_divergence(table)
+                if not amb:
+                    expect("divergence", None, watch(report.divergence, live), dv)
+                expect("coverage", None, watch(report.coverage, live), ref_coverage(table))
+                expect("average_coverage", None, watch(report.average_coverage, live), ref_avg_coverage(table))
+                for a, b in itertools.combinations(ps, 2):
+                    expect("distance", [a, b], watch(report.distance, live, a, b), ref_distance(table, a, b))
+                buf = io.StringIO()
+                try:
+                    report.summary(live, stream=buf)
+                    sm = cli.parse_summary(buf.getvalue())
+                    if dv is not None and not amb and sm["metrics"].get("Code Divergence") not in (f"{float(dv):.2f}",):
+                        # two-decimal print of the exact value (ties are C14's subject: compare with tolerance)
+                        if abs(float(sm["metrics"].get("Code Divergence", "nan")) - float(dv)) > 0.005 + 1e-9:
+                            problems.append({"metric": "summary: Code Divergence (same mapping object, updated in place)", "args": None, "step": step,
+                                             "expected": f"{float(dv):.2f}", "observed": sm["metrics"].get("Code Divergence")})
+                    if dv is None and sm["metrics"].get("Code Divergence") != "nan":
+                        problems.append({"metric": "summary: Code Divergence (same mapping object, updated in place)", "args": None, "step": step,
+                                         "expected": "nan", "observed": sm["metrics"].get("Code Divergence")})
+                    if sm["metrics"].get("Total SLOC") != str(sum(table.values())):
+                        problems.append({"metric": "summary: Total SLOC (same mapping object, updated in place)", "args": None, "step": step,
+                                         "expected": sum(table.values()), "observed": sm["metrics"].get("Total SLOC")})
+                except Exception as e:
+                    problems.append({"metric": "summary", "args": None, "step": step, "expected": "report", "observed": f"{type(e).__name__}: {e}"})
+            out.append((problems[:4], {"mapping-updated-in-place-between-calls"}, rows))
+    return out
+
+
+UNDEFINED_DISTANCE_TABLES = [
+    [(("cpu",), 3), (("cpu", "gpu"), 2), (("dsp",), 0), (("fpga",), 0), ((), 1)],
+    [(("a",), 5), (("b",), 0), (("c",), 0), (("b", "c"), 0)],
+    [(("a", "b"), 4), (("c", "d"), 0), (("a",), 1)],
+]
+
+
+def undefined_distance_clustering(report, workdir):
+    """Tables in which two platforms own no line at all: their distance is 0/0.  The clustering report may refuse such a
+    table, or print `nan` for the pair -- it must not print a number.  Returns list of (problems, cells, rows)."""
+    import io
+    from cbimon import cli
+    import matplotlib
+    matplotlib.use("Agg")
+    from matplotlib import pyplot as plt
+    out = []
+    for rows in UNDEFINED_DISTANCE_TABLES:
+        table = mk(rows)
+        ps = sorted(ref_platforms(table))
+        undefined = [(p, q) for p in ps for q in ps if ref_distance(table, p, q) is None]
+        problems = []
+        cells = {"clustering:undefined-distance"}
+        buf = io.StringIO()
+        try:
+            plt.close("all")
+            with warnings.catch_warnings():
+                warnings.simplefilter("ignore")
+                report.clustering(os.path.join(workdir, "dendrogram-u.png"), table, stream=buf)
+            hdr, cellsm = cli.parse_distance_matrix(buf.getvalue())
+            cells.add("clustering:undefined-distance:report-produced")
+            for p, q in undefined:
+                v = cellsm.get((p, q))
+                if v is not None and v.lower() != "nan":
+                    problems.append({"metric": "clustering-matrix-cell for an undefined distance", "args": [p, q], "expected": "nan (or no report)", "observed": v})
+        except Exception as e:
+            cells.add("clustering:undefined-distance:report-refused")
+        finally:
+            plt.close("all")
+        out.append((problems[:3], cells, rows))
+    return out
+
+
 def classify(problem, rows):
     """Mechanism key of a violation (known-finding predicates; see known_findings.json)."""
     table = mk(rows)
@@ -527,6 +630,19 @@ def run_shard(ctx):
             acc.violated({"input": {"tables": tables}, "witness": {"tables": tables, **problems[0], "all": problems}}, cells=cells, cls="filetree")
         else:
             acc.held(cells=cells, cls="filetree", nontrivial=tables)
+    if ctx.shard == 2 % ctx.nshards:
+        for problems, cells, rows in stateful_updates(report, watch):
+            if problems:
+                acc.violated({"input": {"rows": rows}, "witness": {"rows": rows, **problems[0], "all": problems}}, cells=cells, cls="stateful")
+            else:
+                acc.held(cells=cells, cls="stateful", nontrivial=("stateful", str(rows)))
+    if ctx.shard == 3 % ctx.nshards:
+        for problems, cells, rows in undefined_distance_clustering(report, work):
+            acc.hook("report.clustering")
+            if problems:
+                acc.violated({"input": {"rows": rows}, "witness": {"rows": rows, **problems[0], "all": problems}}, cells=cells, cls="clustering")
+            else:
+                acc.held(cells=cells, cls="clustering", nontrivial=("undefined", str(rows)))
     acc.hook("report-function-calls", watch.calls)
 
 
